@@ -511,7 +511,44 @@ def cases_rate(rng, n):
     return out
 
 
+def cases_field(rng, n):
+    """`Metadata.from_chart_lines.parse_all_lines_for_field` (a nested function: rebuilt from its code object with `lines` in its
+    closure cell); the table look-up, the recogniser, the match object and the processing function are tabulated for the input"""
+    import types
+
+    import chartparse.metadata as cm
+    outer = cm.Metadata.from_chart_lines.__func__
+    code = next(c for c in outer.__code__.co_consts if isinstance(c, types.CodeType) and c.co_name == "parse_all_lines_for_field")
+    fields = list(cm._field_parsing_specs)
+    pool = ['  Resolution = 192', '  Name = "a b"', '  Name = "second"', '  Offset = 5', '  Player2 = bass', 'junk', '', '  Resolution = 7', '  Year = ", 2018"',
+            '  Difficulty = 4', '  Genre = "rock"', '  Name = x', '  Player2 = drums', '  Offset = x']
+    out = []
+    for _ in range(n):
+        field = rng.choice(fields[:6] + [rng.choice(fields)])
+        lines = [rng.choice(pool) for _ in range(rng.choice([0, 1, 3, 6]))]
+        spec = cm._field_parsing_specs[field]
+        so = f"O Spec 1 regex_prog O Pattern 1 field {ser(field)}"
+        table = [f"_field_parsing_specs[] 1 {ser(field)} R {so}"]
+        for l in dict.fromkeys(lines):
+            m = spec.regex_prog.match(l)
+            mo = "N" if m is None else f"O Match 1 g1 {ser(m.group(1))}"
+            table.append(f".match 2 O Pattern 1 field {ser(field)} {ser(l)} R {mo}")
+            if m is not None:
+                table.append(f".group 2 {mo} I 1 R {ser(m.group(1))}")
+                try:
+                    table.append(f".processing_fn 2 {so} {ser(m.group(1))} R {ser(spec.processing_fn(m.group(1)))}")
+                except Unserialisable:
+                    raise
+                except Exception as ex:  # noqa: BLE001
+                    table.append(f".processing_fn 2 {so} {ser(m.group(1))} E {err_tok(ex)}")
+        cell_vars = {"lines": lines}
+        fn = types.FunctionType(code, outer.__globals__, "parse_all_lines_for_field", None, tuple(types.CellType(cell_vars[v]) for v in code.co_freevars))
+        out.append((request("parseAllLinesForField", [field, lines], table), show_result(fn, field), "parseAllLinesForField"))
+    return out
+
+
 GENERATORS = {
+    "parseAllLinesForField": cases_field,
     "notesPerSecond": cases_rate,
     "partitionLines": cases_scanner,
     "noteFromParsedDatas": cases_note_lanes,
